@@ -87,8 +87,56 @@ def load(backend="snarkjs", symbolic=False, quiet=True):
         engine.ENG.modulus = e.P
         engine.ENG.tokenize_str = (backend == "qaptools")
         install_bool_summaries(e, engine)
+    e.modstate = {}
+    track_modules(e, e.mods)
     _ENV = e
     return e
+
+
+_CONTAINERS = (list, dict, set)
+
+
+def _copy_of(obj):
+    return list(obj) if type(obj) is list else (dict(obj) if type(obj) is dict else set(obj))
+
+
+def _same(obj, cp):
+    if len(obj) != len(cp):
+        return False
+    if type(obj) is list:
+        return all(a is b for a, b in zip(obj, cp))
+    if type(obj) is dict:
+        return all((k in obj and obj[k] is v) for k, v in cp.items())
+    return obj == cp
+
+
+def track_modules(e, mods):
+    """every run under test stands for a fresh interpreter: remember the contents of the module-level (and class-level)
+    lists/dicts/sets of the library as they are right after import, so that reset() can put them back.  What a run leaves
+    in such a container therefore never reaches the next run; sequences *inside* one run see it (that is what the
+    multi-call harnesses exercise)."""
+    import inspect
+    for m in mods:
+        if m is None or m.__name__ in e.modstate:
+            continue
+        st = []
+        owners = [m] + [c for c in vars(m).values() if inspect.isclass(c) and getattr(c, "__module__", None) == m.__name__]
+        for owner in owners:
+            for attr, obj in list(vars(owner).items()):
+                if type(obj) in _CONTAINERS and not attr.startswith("__"):
+                    st.append((obj, _copy_of(obj)))
+        e.modstate[m.__name__] = st
+
+
+def restore_modules(e):
+    for st in getattr(e, "modstate", {}).values():
+        for obj, cp in st:
+            if not _same(obj, cp):
+                if type(obj) is list:
+                    obj[:] = cp
+                else:
+                    obj.clear()
+                    obj.update(cp)
 
 
 class RecFile:
@@ -190,6 +238,7 @@ def reset(e, bitlength=None, resolution=None):
     """fresh recorder and runtime state (between paths / harnesses)"""
     if e.rt is None:
         return
+    restore_modules(e)
     rec = e.rec
     if hasattr(rec, "privvals"):
         rec.privvals.clear()
